@@ -10,6 +10,7 @@ package main
 import (
 	"context"
 	"log/slog"
+	"strconv"
 	"sync/atomic"
 	"time"
 
@@ -20,16 +21,25 @@ import (
 )
 
 var c09scens = []struct {
-	name  string
-	build func(warm bool) *c09scen
+	name   string
+	build  func(warm bool) *c09scen
+	shaped func(warm bool, shape string) *c09scen // instead of build: the shared object is derived as the shape says
 }{
-	{"lazy", c09lazy},
-	{"sampler", c09sampler},
-	{"tee", c09tee},
-	{"io", c09io},
-	{"globals", c09globals},
-	{"slog", c09slog},
-	{"sugar", c09sugar},
+	{"lazy", c09lazy, nil},
+	{"sampler", c09sampler, nil},
+	{"tee", c09tee, nil},
+	{"io", c09io, nil},
+	{"globals", c09globals, nil},
+	{"slog", c09slog, nil},
+	{"sugar", c09sugar, nil},
+	{"sloggroups", nil, c09slogGroups},
+}
+
+func c09build(scen int, warm bool, shape string) *c09scen {
+	if f := c09scens[scen].shaped; f != nil {
+		return f(warm, shape)
+	}
+	return c09scens[scen].build(warm)
 }
 
 // a sink that is NOT safe for concurrent use: whatever wraps it must serialise
@@ -83,12 +93,12 @@ func c09lazy(warm bool) *c09scen {
 			}
 		}, units: log("Logger.Check"), mut: true},
 		{name: "Log", run: func(g, k int) { l.Log(zapcore.InfoLevel, "l") }, units: log("Logger.Log"), mut: true},
-		{name: "With.Info", run: func(g, k int) { l.With(zap.Int("k", k)).Info("w") },
+		{name: "With.Info", derive: true, run: func(g, k int) { l.With(zap.Int("k", k)).Info("w") },
 			units: cat(u(0, "Logger.With"), u(1, "lazyWithCore.With"), u(7, "contextObserver.With"), u(4, "AtomicLevel.Enabled"), u(3, "ObservedLogs.add")), mut: true},
-		{name: "WithLazy.Info", run: func(g, k int) { l.WithLazy(zap.Int("k", k)).Info("wl") },
+		{name: "WithLazy.Info", derive: true, run: func(g, k int) { l.WithLazy(zap.Int("k", k)).Info("wl") },
 			units: cat(u(0, "Logger.WithLazy"), en, u(1, "lazyWithCore.With"), u(7, "contextObserver.With"), u(4, "AtomicLevel.Enabled"), u(3, "ObservedLogs.add")), mut: true},
-		{name: "Named.Info", run: func(g, k int) { l.Named("n").Info("nm") }, units: cat(u(0, "Logger.Named"), en, ck, wr), mut: true},
-		{name: "WithOptions.Info", run: func(g, k int) { l.WithOptions(zap.AddCaller()).Info("wo") }, units: cat(u(0, "Logger.WithOptions"), en, ck, wr), mut: true},
+		{name: "Named.Info", derive: true, run: func(g, k int) { l.Named("n").Info("nm") }, units: cat(u(0, "Logger.Named"), en, ck, wr), mut: true},
+		{name: "WithOptions.Info", derive: true, run: func(g, k int) { l.WithOptions(zap.AddCaller()).Info("wo") }, units: cat(u(0, "Logger.WithOptions"), en, ck, wr), mut: true},
 		{name: "Level", run: func(g, k int) { _ = l.Level() }, units: cat(u(0, "Logger.Level"), en)},
 		{name: "Sync", run: func(g, k int) { _ = l.Sync() }, units: cat(u(0, "Logger.Sync"), u(1, "lazyWithCore.Sync"), u(2, "contextObserver.Sync"))},
 		{name: "Core.Enabled", run: func(g, k int) { _ = l.Core().Enabled(zapcore.InfoLevel) }, units: cat(u(0, "Logger.Core"), en)},
@@ -133,9 +143,9 @@ func c09sampler(warm bool) *c09scen {
 		{name: "Info-varied", run: func(g, k int) { l.Info(msgs[(g+k)%3]) }, units: log("Logger.Info"), mut: true},
 		{name: "Warn", run: func(g, k int) { l.Warn("m") }, units: log("Logger.Warn"), mut: true},
 		{name: "Debug", run: func(g, k int) { l.Debug("m") }, units: log("Logger.Debug"), mut: true},
-		{name: "With.Info", run: func(g, k int) { l.With(zap.Int("k", k)).Info("m") },
+		{name: "With.Info", derive: true, run: func(g, k int) { l.With(zap.Int("k", k)).Info("m") },
 			units: cat(u(0, "Logger.With"), u(1, "sampler.With"), u(3, "contextObserver.With"), u(2, "counter.IncCheckReset"), u(5, "AtomicLevel.Enabled"), u(4, "ObservedLogs.add")), mut: true},
-		{name: "WithLazy.Info", run: func(g, k int) { l.WithLazy(zap.Int("k", k)).Info("m") },
+		{name: "WithLazy.Info", derive: true, run: func(g, k int) { l.WithLazy(zap.Int("k", k)).Info("m") },
 			units: cat(u(0, "Logger.WithLazy"), en, u(1, "sampler.With"), u(3, "contextObserver.With"), u(2, "counter.IncCheckReset"), u(4, "ObservedLogs.add")), mut: true},
 		{name: "Level", run: func(g, k int) { _ = l.Level() }, units: cat(u(0, "Logger.Level"), u(1, "sampler.Level"), u(3, "contextObserver.Level"), u(5, "AtomicLevel.Level"))},
 		{name: "Sync", run: func(g, k int) { _ = l.Sync() }, units: cat(u(0, "Logger.Sync"), u(1, "sampler.Sync"), u(3, "contextObserver.Sync"))},
@@ -173,8 +183,8 @@ func c09tee(warm bool) *c09scen {
 		{name: "Info", run: func(g, k int) { l.Info("m", zap.Int("g", g)) }, units: log("Logger.Info"), mut: true},
 		{name: "Warn", run: func(g, k int) { l.Warn("w") }, units: log("Logger.Warn"), mut: true},
 		{name: "Debug", run: func(g, k int) { l.Debug("d") }, units: log("Logger.Debug"), mut: true},
-		{name: "With.Warn", run: func(g, k int) { l.With(zap.Int("k", k)).Warn("ww") }, units: cat(u(0, "Logger.With"), with, u(10, "AtomicLevel.Enabled"), u(3, "ObservedLogs.add"), u(6, "ObservedLogs.add"), u(9, "ObservedLogs.add")), mut: true},
-		{name: "WithLazy.Warn", run: func(g, k int) { l.WithLazy(zap.Int("k", k)).Warn("wl") }, units: cat(u(0, "Logger.WithLazy"), en, with, u(3, "ObservedLogs.add"), u(6, "ObservedLogs.add"), u(9, "ObservedLogs.add")), mut: true},
+		{name: "With.Warn", derive: true, run: func(g, k int) { l.With(zap.Int("k", k)).Warn("ww") }, units: cat(u(0, "Logger.With"), with, u(10, "AtomicLevel.Enabled"), u(3, "ObservedLogs.add"), u(6, "ObservedLogs.add"), u(9, "ObservedLogs.add")), mut: true},
+		{name: "WithLazy.Warn", derive: true, run: func(g, k int) { l.WithLazy(zap.Int("k", k)).Warn("wl") }, units: cat(u(0, "Logger.WithLazy"), en, with, u(3, "ObservedLogs.add"), u(6, "ObservedLogs.add"), u(9, "ObservedLogs.add")), mut: true},
 		{name: "Level", run: func(g, k int) { _ = l.Level() }, units: cat(u(0, "Logger.Level"), u(1, "multiCore.Level"), u(2, "contextObserver.Level"), u(4, "hooked.Level"), u(5, "contextObserver.Level"), u(7, "levelFilterCore.Level"), u(10, "AtomicLevel.Level"))},
 		{name: "Sync", run: func(g, k int) { _ = l.Sync() }, units: cat(u(0, "Logger.Sync"), u(1, "multiCore.Sync"), u(2, "contextObserver.Sync"), u(4, "hooked.Sync"), u(5, "contextObserver.Sync"), u(7, "levelFilterCore.Sync"), u(8, "contextObserver.Sync"))},
 		{name: "SetLevel", run: func(g, k int) { c09toggle(lvl, k) }, units: u(10, "AtomicLevel.SetLevel"), mut: true},
@@ -206,8 +216,8 @@ func c09io(warm bool) *c09scen {
 		{name: "Info", run: func(g, k int) { l.Info("m", zap.Int("g", g), zap.String("s", "abcdefghijklmnopqrstuvwxyz")) }, units: log("Logger.Info"), mut: true},
 		{name: "Error+sync", run: func(g, k int) { l.Error("e") }, units: cat(log("Logger.Error"), sy), mut: true},
 		{name: "Debug", run: func(g, k int) { l.Debug("d") }, units: log("Logger.Debug"), mut: true},
-		{name: "With.Info", run: func(g, k int) { l.With(zap.Int("k", k)).Info("w") }, units: cat(u(0, "Logger.With"), u(1, "multiCore.With"), u(2, "ioCore.With"), u(5, "ioCore.With"), u(8, "Pool.Get"), u(3, "lockedWriteSyncer.Write"), u(4, "BufferedWriteSyncer.Write"), u(6, "lockedWriteSyncer.Write"), u(8, "Pool.Put")), mut: true},
-		{name: "WithLazy.Info", run: func(g, k int) { l.WithLazy(zap.Int("k", k)).Info("wl") }, units: cat(u(0, "Logger.WithLazy"), en, u(1, "multiCore.With"), u(2, "ioCore.With"), u(5, "ioCore.With"), u(3, "lockedWriteSyncer.Write"), u(4, "BufferedWriteSyncer.Write"), u(6, "lockedWriteSyncer.Write")), mut: true},
+		{name: "With.Info", derive: true, run: func(g, k int) { l.With(zap.Int("k", k)).Info("w") }, units: cat(u(0, "Logger.With"), u(1, "multiCore.With"), u(2, "ioCore.With"), u(5, "ioCore.With"), u(8, "Pool.Get"), u(3, "lockedWriteSyncer.Write"), u(4, "BufferedWriteSyncer.Write"), u(6, "lockedWriteSyncer.Write"), u(8, "Pool.Put")), mut: true},
+		{name: "WithLazy.Info", derive: true, run: func(g, k int) { l.WithLazy(zap.Int("k", k)).Info("wl") }, units: cat(u(0, "Logger.WithLazy"), en, u(1, "multiCore.With"), u(2, "ioCore.With"), u(5, "ioCore.With"), u(3, "lockedWriteSyncer.Write"), u(4, "BufferedWriteSyncer.Write"), u(6, "lockedWriteSyncer.Write")), mut: true},
 		{name: "Sync", run: func(g, k int) { _ = l.Sync() }, units: cat(u(0, "Logger.Sync"), u(1, "multiCore.Sync"), sy), mut: true},
 		{name: "BWS.Write", run: func(g, k int) { _, _ = bws.Write([]byte("direct\n")) }, units: u(4, "BufferedWriteSyncer.Write"), mut: true},
 		{name: "BWS.Sync", run: func(g, k int) { _ = bws.Sync() }, units: u(4, "BufferedWriteSyncer.Sync"), mut: true},
@@ -236,7 +246,7 @@ func c09globals(warm bool) *c09scen {
 		{name: "Replace-one", run: func(g, k int) { zap.ReplaceGlobals(l1) }, units: cat(u(0, "globals.ReplaceGlobals"), u(1, "Logger.Sugar")), mut: true},
 		{name: "Replace-two", run: func(g, k int) { zap.ReplaceGlobals(l2) }, units: cat(u(0, "globals.ReplaceGlobals"), u(2, "Logger.Sugar")), mut: true},
 		{name: "Replace+undo", run: func(g, k int) { undo := zap.ReplaceGlobals(l2); zap.L().Info("in"); undo() }, units: cat(u(0, "globals.ReplaceGlobals", "globals.L"), u(2, "Logger.Info"), wr, u(0, "globals.ReplaceGlobals")), mut: true},
-		{name: "L.With.Info", run: func(g, k int) { zap.L().With(zap.Int("k", k)).Info("w") }, units: cat(u(0, "globals.L"), u(1, "Logger.With"), u(3, "contextObserver.With"), u(4, "ObservedLogs.add")), mut: true},
+		{name: "L.With.Info", derive: true, run: func(g, k int) { zap.L().With(zap.Int("k", k)).Info("w") }, units: cat(u(0, "globals.L"), u(1, "Logger.With"), u(3, "contextObserver.With"), u(4, "ObservedLogs.add")), mut: true},
 		{name: "L.Level", run: func(g, k int) { _ = zap.L().Level(); _ = zap.S().Level() }, units: cat(u(0, "globals.L", "globals.S"), u(1, "Logger.Level"))},
 		{name: "Logs.Len", run: func(g, k int) { _ = logs.Len() }, units: u(4, "ObservedLogs.Len")},
 	}}
@@ -258,8 +268,8 @@ func c09slog(warm bool) *c09scen {
 		{name: "Info", run: func(g, k int) { sl.Info("m", "g", g, "k", k) }, units: hd, mut: true},
 		{name: "Error+stack", run: func(g, k int) { sl.Error("e", slog.Group("grp", slog.Int("a", 1))) }, units: hd, mut: true},
 		{name: "Debug", run: func(g, k int) { sl.Debug("d") }, units: cat(u(0, "Handler.Enabled"), u(1, "contextObserver.Enabled"), u(3, "AtomicLevel.Enabled"))},
-		{name: "With.Info", run: func(g, k int) { sl.With("a", k).Info("w") }, units: cat(u(0, "Handler.WithAttrs"), u(1, "contextObserver.With"), u(3, "AtomicLevel.Enabled"), u(2, "ObservedLogs.add")), mut: true},
-		{name: "WithGroup.Info", run: func(g, k int) { sl.WithGroup("g").With("a", 1).Info("wg", "b", 2) }, units: cat(u(0, "Handler.WithGroup"), u(1, "contextObserver.With"), u(3, "AtomicLevel.Enabled"), u(2, "ObservedLogs.add")), mut: true},
+		{name: "With.Info", derive: true, run: func(g, k int) { sl.With("a", k).Info("w") }, units: cat(u(0, "Handler.WithAttrs"), u(1, "contextObserver.With"), u(3, "AtomicLevel.Enabled"), u(2, "ObservedLogs.add")), mut: true},
+		{name: "WithGroup.Info", derive: true, run: func(g, k int) { sl.WithGroup("g").With("a", 1).Info("wg", "b", 2) }, units: cat(u(0, "Handler.WithGroup"), u(1, "contextObserver.With"), u(3, "AtomicLevel.Enabled"), u(2, "ObservedLogs.add")), mut: true},
 		{name: "Enabled", run: func(g, k int) { _ = h.Enabled(ctx, slog.LevelDebug) }, units: cat(u(0, "Handler.Enabled"), u(1, "contextObserver.Enabled"), u(3, "AtomicLevel.Enabled"))},
 		{name: "SetLevel", run: func(g, k int) { c09toggle(lvl, k) }, units: u(3, "AtomicLevel.SetLevel"), mut: true},
 		{name: "Logs.TakeAll", run: func(g, k int) { _ = logs.TakeAll() }, units: u(2, "ObservedLogs.TakeAll"), mut: true},
@@ -287,13 +297,94 @@ func c09sugar(warm bool) *c09scen {
 		{name: "Panicw", run: func(g, k int) { s.Panicw("p", "k", k) }, units: log("SugaredLogger.Panicw"), mut: true, mayPanic: true},
 		{name: "DPanicf", run: func(g, k int) { s.DPanicf("dp %d", k) }, units: log("SugaredLogger.DPanicf"), mut: true},
 		{name: "Logw", run: func(g, k int) { s.Logw(zapcore.WarnLevel, "lw", "k", k) }, units: log("SugaredLogger.Logw"), mut: true},
-		{name: "With.Info", run: func(g, k int) { s.With("k", k).Info("w") }, units: cat(u(0, "SugaredLogger.With"), u(1, "Logger.With"), u(2, "contextObserver.With"), u(4, "AtomicLevel.Enabled"), u(3, "ObservedLogs.add")), mut: true},
-		{name: "WithLazy.Info", run: func(g, k int) { s.WithLazy("k", k).Info("wl") }, units: cat(u(0, "SugaredLogger.WithLazy"), u(1, "Logger.WithLazy"), u(2, "contextObserver.Enabled", "contextObserver.With"), u(4, "AtomicLevel.Enabled"), u(3, "ObservedLogs.add")), mut: true},
-		{name: "Named.Info", run: func(g, k int) { s.Named("n").Info("nm") }, units: cat(u(0, "SugaredLogger.Named"), u(1, "Logger.Named"), ck), mut: true},
-		{name: "Desugar.Info", run: func(g, k int) { s.Desugar().Info("ds") }, units: cat(u(0, "SugaredLogger.Desugar"), ck), mut: true},
-		{name: "WithOptions.Info", run: func(g, k int) { s.WithOptions(zap.AddCallerSkip(0)).Info("wo") }, units: cat(u(0, "SugaredLogger.WithOptions"), u(1, "Logger.WithOptions"), ck), mut: true},
+		{name: "With.Info", derive: true, run: func(g, k int) { s.With("k", k).Info("w") }, units: cat(u(0, "SugaredLogger.With"), u(1, "Logger.With"), u(2, "contextObserver.With"), u(4, "AtomicLevel.Enabled"), u(3, "ObservedLogs.add")), mut: true},
+		{name: "WithLazy.Info", derive: true, run: func(g, k int) { s.WithLazy("k", k).Info("wl") }, units: cat(u(0, "SugaredLogger.WithLazy"), u(1, "Logger.WithLazy"), u(2, "contextObserver.Enabled", "contextObserver.With"), u(4, "AtomicLevel.Enabled"), u(3, "ObservedLogs.add")), mut: true},
+		{name: "Named.Info", derive: true, run: func(g, k int) { s.Named("n").Info("nm") }, units: cat(u(0, "SugaredLogger.Named"), u(1, "Logger.Named"), ck), mut: true},
+		{name: "Desugar.Info", derive: true, run: func(g, k int) { s.Desugar().Info("ds") }, units: cat(u(0, "SugaredLogger.Desugar"), ck), mut: true},
+		{name: "WithOptions.Info", derive: true, run: func(g, k int) { s.WithOptions(zap.AddCallerSkip(0)).Info("wo") }, units: cat(u(0, "SugaredLogger.WithOptions"), u(1, "Logger.WithOptions"), ck), mut: true},
 		{name: "Level+Sync", run: func(g, k int) { _ = s.Level(); _ = s.Sync() }, units: cat(u(0, "SugaredLogger.Level", "SugaredLogger.Sync"), u(1, "Logger.Level", "Logger.Sync"), u(2, "contextObserver.Level", "contextObserver.Sync"), u(4, "AtomicLevel.Level"))},
 		{name: "SetLevel", run: func(g, k int) { c09toggle(lvl, k) }, units: u(4, "AtomicLevel.SetLevel"), mut: true},
 		{name: "Logs.All", run: func(g, k int) { _ = logs.All() }, units: u(3, "ObservedLogs.All")},
+	}}
+}
+
+// ---------------------------------------------------------------- slog handler with pending groups, and its siblings
+// The shared handler H is derived from a new handler as the shape says, one step per letter:
+//
+//	g  WithGroup(name)                 one more pending (not yet applied) group
+//	a  WithAttrs(one real attr)        applies the pending groups (the namespaces go to the core): none pending afterwards
+//	e  WithAttrs(an empty group attr)  converts to a skipped field: the pending groups stay pending
+//	n  WithAttrs(nil)                  likewise
+//
+// so "ggg" is a handler with three pending groups, "gaggeg" one applied and three pending.
+// S1 and S2 are siblings derived from H (WithGroup) before the goroutines start, C is a child of
+// S1.  The operations derive further siblings from H, S1 and S2 and log through every one of them:
+// whatever a derived handler inherits from its parent (the pending names, the core's context) is
+// shared with the parent and with all its siblings and must never be written through.
+// instances: 0 Handler H 1 contextObserver (H's core) 2 ObservedLogs 3 AtomicLevel
+// 4 Handler S1 5 Handler S2 6 Handler C
+func c09slogGroups(warm bool, shape string) *c09scen {
+	lvl := zap.NewAtomicLevelAt(zapcore.InfoLevel)
+	core, logs := observer.New(lvl)
+	var h slog.Handler = zapslog.NewHandler(core, zapslog.WithName("n"))
+	for i := 0; i < len(shape); i++ {
+		switch shape[i] {
+		case 'g':
+			h = h.WithGroup("p" + strconv.Itoa(i))
+		case 'a':
+			h = h.WithAttrs([]slog.Attr{slog.Int("a"+strconv.Itoa(i), i)})
+		case 'e':
+			h = h.WithAttrs([]slog.Attr{slog.Group("e" + strconv.Itoa(i))})
+		case 'n':
+			h = h.WithAttrs(nil)
+		default:
+			panic("c09slogGroups: unknown shape letter " + shape[i:i+1])
+		}
+	}
+	s1 := h.WithGroup("s1")
+	s2 := h.WithGroup("s2")
+	ch := s1.WithGroup("c")
+	if warm {
+		slog.New(h).Info("warm", "a", 1)
+		slog.New(s1).Info("warm", "a", 1)
+		slog.New(ch).Info("warm")
+	}
+	nm := func(g, k int) string { return "g" + strconv.Itoa(g) + "k" + strconv.Itoa(k) }
+	ctx := context.Background()
+	via := cat(u(1, "contextObserver.Enabled"), u(3, "AtomicLevel.Enabled"), u(1, "contextObserver.Check", "contextObserver.Write"), u(2, "ObservedLogs.add"))
+	hd := func(inst int) []c09call {
+		return cat(u(inst, "Handler.Enabled"), u(1, "contextObserver.Enabled"), u(3, "AtomicLevel.Enabled"), u(inst, "Handler.Handle"), u(1, "contextObserver.Check", "contextObserver.Write"), u(2, "ObservedLogs.add"))
+	}
+	with := cat(u(1, "contextObserver.With"), u(3, "AtomicLevel.Enabled"), u(2, "ObservedLogs.add"))
+	return &c09scen{cleanup: func() {}, ops: []c09op{
+		{name: "Info", run: func(g, k int) { slog.New(h).Info("m", "g", g, "k", k) }, units: hd(0), mut: true},
+		{name: "WithGroup.Info", derive: true, run: func(g, k int) { slog.New(h.WithGroup(nm(g, k))).Info("wg", "b", 2) },
+			units: cat(u(0, "Handler.WithGroup"), via), mut: true},
+		{name: "WithGroup", derive: true, run: func(g, k int) { _ = h.WithGroup(nm(g, k)) }, units: u(0, "Handler.WithGroup")},
+		{name: "WithGroup.With.Info", derive: true, run: func(g, k int) { slog.New(h).WithGroup(nm(g, k)).With("a", k).Info("wa", "b", 1) },
+			units: cat(u(0, "Handler.WithGroup"), with), mut: true},
+		{name: "WithGroup-chain.Info", derive: true, run: func(g, k int) {
+			p := h.WithGroup(nm(g, k)) // a sibling of everything else derived from H ...
+			q := p.WithGroup("q").WithGroup("r")
+			slog.New(q).Info("q", "b", 1)
+			slog.New(q.WithGroup("s")).Info("s", "b", 2) // ... and private siblings below it
+			slog.New(q.WithGroup("t")).Info("t", "b", 3)
+		}, units: cat(u(0, "Handler.WithGroup"), via, via, via), mut: true},
+		{name: "With.Info", derive: true, run: func(g, k int) { slog.New(h).With("a", k).Info("w") },
+			units: cat(u(0, "Handler.WithAttrs"), with), mut: true},
+		{name: "WithEmpty.WithGroup.Info", derive: true, run: func(g, k int) {
+			slog.New(h.WithAttrs([]slog.Attr{slog.Group("e")}).WithGroup(nm(g, k))).Info("we", "b", 1)
+		}, units: cat(u(0, "Handler.WithAttrs"), with), mut: true},
+		{name: "Info-noattrs", run: func(g, k int) { slog.New(h).Info("m") }, units: hd(0), mut: true},
+		{name: "Sib1.Info", run: func(g, k int) { slog.New(s1).Info("s1", "g", g) }, units: hd(4), mut: true},
+		{name: "Sib2.With.Info", derive: true, run: func(g, k int) { slog.New(s2).With("a", k).Info("s2") },
+			units: cat(u(5, "Handler.WithAttrs"), with), mut: true},
+		{name: "Sib1.WithGroup.Info", derive: true, run: func(g, k int) { slog.New(s1.WithGroup(nm(g, k))).Info("s1g", "b", 1) },
+			units: cat(u(4, "Handler.WithGroup"), via), mut: true},
+		{name: "Child.Info", run: func(g, k int) { slog.New(ch).Info("c", "g", g) }, units: hd(6), mut: true},
+		{name: "Enabled", run: func(g, k int) { _ = h.Enabled(ctx, slog.LevelDebug); _ = s1.Enabled(ctx, slog.LevelInfo) },
+			units: cat(u(0, "Handler.Enabled"), u(4, "Handler.Enabled"), u(1, "contextObserver.Enabled", "contextObserver.Enabled"), u(3, "AtomicLevel.Enabled", "AtomicLevel.Enabled"))},
+		{name: "SetLevel", run: func(g, k int) { c09toggle(lvl, k) }, units: u(3, "AtomicLevel.SetLevel"), mut: true},
+		{name: "Logs.TakeAll", run: func(g, k int) { _ = logs.TakeAll() }, units: u(2, "ObservedLogs.TakeAll"), mut: true},
 	}}
 }
